@@ -574,6 +574,39 @@ def phase1(exe, stream):
     return lines2, res, reports
 
 
+def run_backend_parity(chk, n_seeds, per):
+    """Implementation leg used by C08: the same history of random requests with the same seed on a Naive and on an
+    Eigen device (boundary probabilities p = 0 / 1 and dropout rates 0 / 1 in the middle of the history included); every
+    answer must be identical — values and the position of the device's random stream (a request that draws on one backend
+    and not on the other shows in every later request)."""
+    exe = build.build_harness(HARNESS)
+    rng = chk.rng
+    for i in range(n_seeds):
+        sd = rng.randrange(2 ** 32)
+        base = gen_stream(rng, "naive", sd, per, big=False)
+        # boundary requests followed by ordinary ones
+        for _ in range(4):
+            k = rng.randrange(1, len(base))
+            base.insert(k, rng.choice(["bernoulli S:3/1 3f800000", "bernoulli S:2,2/1 00000000", "dropout S:3/2 00000000 1",
+                                       "node_dropout S:2/1 00000000 1", "node_bernoulli S:4/1 3f800000", "dropout S:3/1 3f800000 1"]))
+        base += ["bernoulli S:5/1 3f000000", "normal S:3/1 00000000 3f800000", "uniform S:4/1 bf800000 3f800000"]
+        other = ["dev eigen %d" % sd] + base[1:]
+        _, a, _ = phase1(exe, base)
+        _, b, _ = phase1(exe, other)
+        chk.traces += 2
+        for j in range(1, len(base)):
+            x, y = (a[j] if j < len(a) else "?"), (b[j] if j < len(b) else "?")
+            chk.count("naive|eigen " + base[j], x, x.startswith("ok "))
+            if x != y:
+                kind = "crash" if (x.startswith("crash") or y.startswith("crash")) else "differ"
+                chk.report("rng:backends-%s:%s" % (kind, base[j].split()[0]),
+                           "seed %d, request %d `%s`: devices::Naive answers `%s`, devices::Eigen `%s` (same seed, same history)" % (
+                               sd, j, base[j][:80], x[:120], y[:120]),
+                           {"family": FAMILY, "harness": HARNESS, "stateful": True, "lines": other[: j + 1], "model_family": None,
+                            "naive_history": base[: j + 1], "observed": y[:600], "observed_naive": x[:600]})
+                break
+
+
 def compile_test():
     """functions::random::log_normal must be usable through every documented overload."""
     cfg = build.config_dir("asan")
